@@ -653,15 +653,36 @@ class History(object):
                          "survey located recoverable seqnum %s" % (which or "?", [v[0] for v in best]), w)
             return
         if st == "ok":
+            # (ii) what modify() published.  A later reader returns the best version *it* locates (oracle (b)); with
+            # lying servers or stale shares its survey may legitimately settle on an older one, so the published
+            # version is read back on its own: only the shares carrying the sequence number modify() wrote are left
+            # on the grid and no server lies any more.  (Nothing else runs on this composition afterwards.)
             ck.mon("modify-result-derives-from-best-located")
             g.sched.settle()
+            import os
+            written = set()
+            for r in g.calls[n1:]:
+                if M.has_writes(r):
+                    written |= set(M.written_seqnums(r).values())
+            if len(written) != 1:
+                ck.observe("held-modify-wrote-%d-seqnums" % len(written))
+                return
+            g.mutate_response = None
+            for (idx, shnum, ms) in M.disk_shares(g, self.si):
+                if ms.fmt is None or ms.f["seqnum"] not in written:
+                    os.unlink(ms.path)
             c3 = g.make_client(k=k, happy=1, n=p["n"], mutable_format=p["fmt"])
             st3, final = g.wait(c3.create_node_from_uri(self.ro_uri).download_best_version(), horizon=4 * 3600.0)
-            if st3 == "ok" and final not in [c + marker for c in allowed]:
+            if st3 != "ok":
+                ck.observe("held-modify-published-version-not-readable-on-its-own")
+            elif final not in [c + marker for c in allowed]:
+                rel = [("seq%d" % v[0]) + ("+marker" * n_) for v, c in content_of.items() for n_ in (0, 1, 2, 3)
+                       if final == c + marker * n_]
                 ck.violation("modify-result-does-not-derive-from-the-best-located-version",
-                             "after a successful modify() of a held version a fresh read returns content that is not "
-                             "<best located version> + marker", w)
-            elif st3 == "ok":
+                             "the version a successful modify() of a held MutableFileVersion published (seqnum %s) does "
+                             "not contain <best located version> + marker" % sorted(written),
+                             dict(w, modifier_calls=len(calls), published_content_is=rel))
+            else:
                 ck.hit("held-modify-result-derives-from-newest")
 
 
